@@ -74,7 +74,11 @@ func wrapperTypes(ms *MsgSchema) []wrapInfo {
 var listMethods = []string{"Len", "Get", "Set", "Append", "AppendMutable", "Truncate", "NewElement", "IsValid"}
 var mapMethods = []string{"Len", "Has", "Get", "Set", "Clear", "Mutable", "NewValue", "IsValid", "Range"}
 
-func wrapperUnits(prog *Program, ms *MsgSchema) []*Unit {
+var wrapperReadMethods = map[string]bool{"Len": true, "Get": true, "Has": true, "Range": true, "IsValid": true, "NewElement": true, "NewValue": true}
+
+func wrapperUnits(prog *Program, ms *MsgSchema) []*Unit { return wrapperUnitsOnly(prog, ms, nil) }
+
+func wrapperUnitsOnly(prog *Program, ms *MsgSchema, only map[string]bool) []*Unit {
 	var out []*Unit
 	for _, w := range wrapperTypes(ms) {
 		ms2 := listMethods
@@ -82,6 +86,9 @@ func wrapperUnits(prog *Program, ms *MsgSchema) []*Unit {
 			ms2 = mapMethods
 		}
 		for _, m := range ms2 {
+			if only != nil && !only[m] {
+				continue
+			}
 			out = append(out, wrapperUnit(prog, ms, w, m))
 		}
 	}
